@@ -23,9 +23,10 @@ META = {
                    "pointer and infers size/prod(others). Storage conversions: every converting constructor/assignment of the owning, mapping and "
                    "const-mapping storages sets the dimensions from other.dims() and the data from other.data() (with other.size() elements) on "
                    "every path, also through private helpers. The summed-area table recurrence yields the naive prefix sums (rank 1 and the rank-N step on symbolic "
-                   "instances) and every partial sum is carried in the output scalar type. Type-level: writing through a constant map, resizing a map, assigning to a constant map, "
+                   "instances) and every partial sum is carried in the output scalar type; remove_if compacts the kept rows in order for every keep/drop pattern of a "
+                   "3-row instance, indexed() gathers row indices(i) into row i, stack() lays blocks out contiguously. Type-level: writing through a constant map, resizing a map, assigning to a constant map, "
                    "mapping a const owning tensor mutably and using the wrong number of indices do not compile (each with a compiling twin).",
-    "not_decided": "indexed gathers, remove_if and stack (loop-carried); Eigen's own Map addressing; exact divisibility in reshape (asserted by the code)",
+    "not_decided": " Eigen's own Map addressing; exact divisibility in reshape (asserted by the code)",
     "assumptions": ["Eigen::Map(ptr, n) addresses ptr[0..n)", "the -1 inference is evaluated over the rationals (the code asserts divisibility)"],
 }
 
@@ -122,6 +123,10 @@ class TInterp(Interp):
             base = self.ev(c[0])
             if is_arr(base):
                 return base[int(self.ev(c[1]))]
+        if ck == "op" and n.get("op") == "()" and len(c) == 2:
+            base0 = self.env.get(skip(c[0]).get("d")) if skip(c[0])["k"] == "ref" else None
+            if isinstance(base0, tuple) and base0 and base0[0] == "pyfn":
+                return base0[1](self.ev(c[1]))
         if ck == "op" and n.get("op") == "()" and len(c) >= 2 and self.ev(c[0]) == THIS:
             tg = self.F.resolve(n)
             if tg:
@@ -554,10 +559,107 @@ def rule_integral(F, R):
         R.check(not bad, "R-C16-4", inst, f.loc(), "every partial sum is carried in the output scalar type", "partial sums are not carried in the output type %s: %s (narrow inputs wrap / lose precision)" % (to, bad[:2]))
 
 
+def rule_algorithms(F, R):
+    """R-C16-5: gathers, in-place compaction and stacking address exactly the elements their contracts name"""
+    import itertools
+    # ---- remove_if: all keep/drop patterns on 3 rows, symbolic contents
+    rms = [f for f in F.functions.values() if f.qn == "nano::remove_if" and f.relfile == "include/nano/tensor/algorithm.h"]
+    R.floor("R-C16-5/remove_if", len(rms), 2, "remove_if instantiations")
+    for f in sorted(rms, key=lambda f: f.key):
+        ntens = len(f.params) - 1
+        inst = "remove_if/%d tensors" % ntens
+        ok, why = True, ""
+        try:
+            for flags in itertools.product((False, True), repeat=3):
+                T = []
+                for t in range(ntens):
+                    rank2 = "double, 2>" in (f.params[1 + t].get("t") or "")
+                    T.append([[sp.Symbol("t%d_%d%d" % (t, i, j)) for j in range(2)] for i in range(3)] if rank2 else [sp.Symbol("t%d_%d" % (t, i)) for i in range(3)])
+                orig = [[list(r) if is_arr(r) else r for r in t] for t in T]
+                it = TInterp(F, f)
+                it.env[f.params[0]["d"]] = ("pyfn", lambda i, flags=flags: sp.true if (int(i) >= 3 or flags[int(i)]) else sp.false)
+                for t in range(ntens):
+                    it.env[f.params[1 + t]["d"]] = T[t]
+                ret = it.run()
+                keep = [i for i in range(3) if not flags[i]]
+                if ret != len(keep):
+                    ok, why = False, "flags %s: returns %s, %d rows are kept" % (flags, ret, len(keep))
+                    break
+                for t in range(ntens):
+                    for pos, i in enumerate(keep):
+                        if not eq(T[t][pos], orig[t][i]):
+                            ok, why = False, "flags %s: row %d of tensor %d is %s, expected the kept row %d (%s)" % (flags, pos, t, T[t][pos], i, orig[t][i])
+                            break
+                    if not ok:
+                        break
+                if not ok:
+                    break
+            R.check(ok, "R-C16-5", inst, f.loc(), "for all 8 keep/drop patterns of 3 rows the kept rows are compacted in order in every tensor and their number is returned",
+                    "remove_if does not compact the kept rows: " + why)
+        except OutOfFragment as e:
+            R.incomplete("R-C16-5", inst, f.loc(), "cannot evaluate: %s" % e)
+    # ---- indexed gathers
+    idx = [f for f in F.functions.values() if f.name == "indexed" and f.cls == "nano::tensor_t" and len(f.params) == 2 and f.relfile == "include/nano/tensor/tensor.h"]
+    n = 0
+    for f in sorted(idx, key=lambda f: f.key):
+        own = "tensor_vector_storage_t" in (f.params[1].get("t") or "")
+        inst = "indexed %s@%s" % ("resize" if own else "gather", f.key[40:75])
+        n += 1
+        if own:
+            dimv = [v for v in f.nodes() if v["k"] == "var" and v["n"] == "dimensions" and v.get("c")]
+            asg = [x for x in f.nodes() if assignment(x) and pp(assignment(x)[0]) == "dimensions[0]"]
+            rs = [c for c in f.calls(lambda c: callee(c).split("::")[-1] == "resize")]
+            fw = [c for c in f.calls(lambda c: callee(c).split("::")[-1] == "indexed")]
+            ok = len(dimv) == 1 and pp(dimv[0]["c"][0]) == "dims()" and len(asg) == 1 and pp(assignment(asg[0])[1]) == "indices.size()" and \
+                len(rs) == 1 and pp(rs[0]) == "subtensor.resize(dimensions)" and len(fw) == 1 and [pp(a) for a in args(fw[0])] == ["indices", "subtensor.tensor()"]
+            R.check(ok, "R-C16-5", inst, f.loc(), "result has indices.size() rows of the source's trailing shape and is filled by the gather", "indexed() no longer sizes the result as [indices.size(), trailing dims]")
+        else:
+            loops = [x for x in f.nodes() if x["k"] == "for"]
+            asg = [x for x in f.nodes() if assignment(x)]
+            okl = len(loops) == 1 and pp(loops[0]["c"][loops[0]["r"].index("cond")]) == "(i < indices_size)" and "i = 0" in pp(loops[0]["c"][loops[0]["r"].index("init")]) and \
+                "indices_size = indices.size()" in pp(loops[0]["c"][loops[0]["r"].index("init")])
+            rows = [x for x in asg if pp(assignment(x)[0]) in ("subtensor.vector(i)", "subtensor(i)")]
+            okr = len(rows) == 1 and re.sub(r"<[^()]*>", "", pp(assignment(rows[0])[1])) in ("vector(indices(i)).cast()", "cast(this->operator()(indices(i)))", "cast((*this)(indices(i)))", "cast(operator()(indices(i)))")
+            R.check(okl and okr, "R-C16-5", inst, f.loc(), "row i of the result is row indices(i) of the source, for every i", "the gather no longer copies row indices(i) into row i for all i: %s" % [pp(x)[:60] for x in rows])
+    R.floor("R-C16-5/indexed", n, 6, "indexed overloads")
+    # ---- stack: segments / blocks are laid out contiguously
+    st = [f for f in F.functions.values() if f.qn == "nano::detail::stack" and f.relfile == "include/nano/tensor/stack.h"]
+    m = 0
+    for f in sorted(st, key=lambda f: f.key):
+        vec = "double, 1> &" in (f.params[0].get("t") or "")
+        m += 1
+        inst = "stack %s@%s" % ("vector" if vec else "matrix", f.key[-60:])
+        if vec:
+            asg = [x for x in f.nodes() if assignment(x) and pp(assignment(x)[0]).startswith("vector.segment")]
+            ok = len(asg) == 1 and re.sub(r"<[^()]*>", "", pp(assignment(asg[0])[0])) == "vector.segment(row, block.size())"
+            nx = [c for c in f.calls(lambda c: callee(c) == "nano::detail::stack")]
+            ok = ok and all([pp(a) for a in args(c)[:2]] == ["vector", "(row + block.size())"] for c in nx)
+            R.check(ok, "R-C16-5", inst, f.loc(), "the block fills [row, row + size) and the next block starts at row + size", "vector stacking no longer lays the segments out contiguously")
+        else:
+            asg = [x for x in f.nodes() if assignment(x) and pp(assignment(x)[0]).startswith("matrix.block")]
+            tgt = re.sub(r"<[^()]*>", "", pp(assignment(asg[0])[0])) if asg else ""
+            ok = len(asg) == 1 and tgt in ("matrix.block(row, col, block.rows(), block.cols())", "matrix.block(row, col, block.size(), 1)")
+            lam = [g for _, g in F.lambdas_in(f)]
+            if lam and [c for c in lam[0].calls(lambda c: callee(c) == "nano::detail::stack")]:
+                g = lam[0]
+                ifs = [x for x in g.nodes() if x["k"] == "if" and "matrix.cols()" in pp(x["c"][x["r"].index("cond")])]
+                okn = len(ifs) == 1 and pp(ifs[0]["c"][ifs[0]["r"].index("cond")]) == "((col + block_cols) >= matrix.cols())"
+                if okn:
+                    th = [pp(a) for c in walk(ifs[0]["c"][ifs[0]["r"].index("then")]) if c["k"] == "call" and callee(c) == "nano::detail::stack" for a in args(c)[:3]]
+                    el = [pp(a) for c in walk(ifs[0]["c"][ifs[0]["r"].index("else")]) if c["k"] == "call" and callee(c) == "nano::detail::stack" for a in args(c)[:3]]
+                    okn = th == ["matrix", "(row + block_rows)", "0"] and el == ["matrix", "row", "(col + block_cols)"]
+                ok = ok and okn
+                calls = [c for c in f.calls(lambda c: c.get("op") == "()" and pp(c["c"][0]) == "next")]
+                ok = ok and len(calls) == 1 and [pp(a) for a in calls[0]["c"][1:]] in (["block.rows()", "block.cols()"], ["block.size()", "1"])
+            R.check(ok, "R-C16-5", inst, f.loc(), "the block fills [row, row+rows) x [col, col+cols); the next block continues the row or starts the next block row", "matrix stacking no longer lays the blocks out row-major without gaps")
+    R.floor("R-C16-5/stack", m, 4, "stack instantiations")
+
+
 def run(ctx):
     R = ctx.report
     F = ctx.facts(TUS)
     rule_polynomials(F, R, 5 if ctx.thorough else 4)
     rule_storage(F, R)
     rule_integral(F, R)
+    rule_algorithms(F, R)
     rule_compile_fail(R)
